@@ -6,7 +6,7 @@ import props
 ID = "C04"
 INFO = ("YRenderScalar (TLA+ reference): the presentations YAML 1.2.2 allows for a target string -- plain where representable in the context, single-quoted ('' doubling), "
         "double-quoted with a per-character choice of literal / short escape / \\x / \\u / \\U, line folding (k line feeds = k+1 breaks, one space = one break, padding before and "
-        "indentation after a break are not content), escaped line breaks -- in nine syntactic contexts (top level, block key/value, sequence entry, nested value, flow entry/key/value, "
+        "indentation after a break are not content), escaped line breaks -- in ten syntactic contexts (top level, block key/value, sequence entry, the same after a plain scalar and an empty line, nested value, flow entry/key/value, "
         "explicit key). Gen_Scalar: TLC enumerates every target of <= 2 characters over an 11-symbol tricky alphabet x style x context x every choice vector, "
         "every single character of a 27-symbol alphabet that has every named escape of section 5.7 (\\0 \\a \\b \\t \\<TAB> \\n \\v \\f \\r \\e \\<space> \\\" \\/ \\\\ \\N \\_ \\L \\P) in every form and context, 28 fixed "
         "targets whose middle word looks like syntax (--- ... - # ? : | > &x *x !t %Y [x] {x} quotes) under every placement of <= 2 line folds / escaped breaks, "
